@@ -292,7 +292,72 @@ def pset_scripts(ctx):
         L.append("pset I %s -" % dims); L.append("pset F %s 3f800000" % dims)
     return [(L, g.stats, "pset")]
 
-def c09(ctx): return check_api_property(ctx, oracles.c09, 160, 4000, extra=pset_scripts)
+def standalone_scripts(ctx):
+    """C09: the parameter classes used on their own: groups built through Group::parameter (incl. refused untyped parameters),
+    merged into a Parameters object through Parameters::group (new names, existing names, duplicate names: the LAST one takes
+    the merge), the non-const accessors at and beyond the size"""
+    out = []
+    X = gen.xhex
+    n = 12 if ctx.quick else 300
+    for i in range(n):
+        r = random.Random(ctx.seed * 389 + i); g = gen.G(ctx.seed * 389 + i)
+        L = ["sa pnew"]
+        names = [b"POINT", b"ANALOG", b"EXTRA", b"extra", b"NEW1", b"FORCE_PLATFORM", b"E2"]
+        for k in range(r.randint(2, 6)):
+            gname = r.choice(names)
+            L.append("sa gnew %s %s %s" % (X(gname), X(g.simple_name(b"d") if r.random() < 0.5 else b""), r.choice("01")))
+            for _ in range(r.randint(0, 4)):
+                ty = r.choice("IFCN" if r.random() < 0.15 else "IFC")
+                pname = r.choice([b"USED", b"RATE", b"LABELS", b"A", b"B", b"a"])
+                if ty == "N": L.append("sa gparam %s x 0 N - -" % X(pname))
+                elif ty == "I": L.append("sa gparam %s %s %s I - %s" % (X(pname), X(b"dd"), r.choice("01"), ",".join(str(r.randint(-5, 5)) for _ in range(r.randint(1, 3)))))
+                elif ty == "F": L.append("sa gparam %s x 0 F - %s" % (X(pname), ",".join(g.fbits() for _ in range(r.randint(1, 2)))))
+                else: L.append("sa gparam %s x 0 C - %s" % (X(pname), ",".join(X(g.simple_name(b"s")) for _ in range(r.randint(1, 2)))))
+            for idx in (0, 1, 5, 2**32, 2**64 - 1): L.append("sa gparamnc %d" % idx)
+            L.append("sa pgroup")
+            for idx in (0, 2, 3, 9, 2**64 - 1): L.append("sa pgroupnc %d" % idx)
+        out.append((L, {"standalone": 1}, "standalone-%d" % i))
+    return out
+
+def loaded_param_scripts(ctx):
+    """C09 on objects that come from a FILE (sparse group ids leave unnamed placeholder groups in the table; byte-typed
+    parameters only exist there): a parameter added to a group that does not exist yet, to an existing group, and stored
+    parameters copied, re-typed through the setters and handed back"""
+    from . import c3dgen
+    out = []
+    X = gen.xhex
+    n = 16 if ctx.quick else 400
+    d = os.path.join(run.WORKROOT, "c09files-%d-%d" % (os.getpid(), ctx.seed)); os.makedirs(d, exist_ok=True)
+    ctx._tmpdirs = getattr(ctx, "_tmpdirs", []) + [d]
+    for i in range(n):
+        seed = ctx.seed * 431 + i
+        r = random.Random(seed); g = gen.G(seed)
+        path = os.path.join(d, "in%d.c3d" % i)
+        desc, content = c3dgen.make_file(seed, path)
+        gname = {gid: nm for gid, nm, lk, ds in content["groups"]}
+        L = ["load %s" % path, "dump"]
+        L.append("param %s %s x 0 I - 1,2,3" % (X(b"BRANDNEW"), X(b"first")))              # a group that does not exist yet
+        L.append("param %s %s x 1 F - %s" % (X(b"BRANDNEW"), X(b"second"), g.fbits()))
+        extra = [p for p in content["params"] if gname.get(p[0]) not in (b"POINT", b"ANALOG")]
+        r.shuffle(extra)
+        for p in extra[:4]:
+            gid, pname, lk, ty, dims, vals, pdesc = p
+            L.append("pload %s %s" % (X(gname[gid]), X(pname)))
+            newty = r.choice("IFC")
+            if newty == "I": L.append("pset I - %s" % ",".join(str(r.randint(-9, 9)) for _ in range(r.randint(1, 3))))
+            elif newty == "F": L.append("pset F - %s" % g.fbits())
+            else: L.append("pset C - %s" % X(g.simple_name(b"s")))
+            L.append("pput %s" % X(gname[gid]))
+            L.append("get paramn %s %s" % (X(gname[gid]), X(pname)))
+        if extra:
+            gid = extra[0][0]
+            L.append("param %s %s x 0 C - %s" % (X(gname[gid]), X(b"ADDED"), X(b"v")))     # an existing (possibly high-id) group
+        out.append((L, {"loaded_param": 1}, "loaded-param-%d" % i))
+    return out
+
+def c09(ctx):
+    orc = lambda res: oracles.c09(res) + oracles.c09_standalone(res)
+    return check_api_property(ctx, orc, 160, 4000, extra=lambda c: pset_scripts(c) + standalone_scripts(c) + loaded_param_scripts(c))
 
 def get_scripts(ctx):
     """C11: every container at sizes 0..6, indices {0..size-1,size,size+1,2^32,2^64-1}, names present/absent/case/space variants"""
